@@ -99,6 +99,17 @@ S["maxadv_inflight"] = dict(until=3, sims=[E("Cc", init_event=0, emit_default=0)
 # ---- mixed inputs -------------------------------------------------------------------
 S["hyb_mixed_inputs"] = dict(until=3, sims=[T("A"), E("Q", init_event=0, emit=[0]), H("B", next_default=1)],
                              conns=[C("A", "B", "po", "mi"), C("Q", "B", "eo", "ti")])
+# a persistent and an event source into ONE trigger attribute of one entity
+S["hyb_mixed_same_attr"] = dict(until=3, sims=[T("A"), E("Q", init_event=0, emit=[0]),
+                                               H("B", next_default=1)],
+                                conns=[C("A", "B", "po", "ti"), C("Q", "B", "eo", "ti")])
+# simulators that legitimately produce the value None
+S["none_values"] = dict(until=4, sims=[T("A", none_at=[1]), T("B"),
+                                       E("Q", init_event=0, emit_default=0, next=[1, 1], none_at=[1]),
+                                       H("Z")],
+                        conns=[C("A", "B", "po", "mi"), C("Q", "Z", "eo", "ti"), C("A", "Z", "po", "mi")])
+S["two_delays_same_pair_rev"] = dict(until=3, sims=[T("A"), H("B", next_default=1)],
+                                     conns=[C("A", "B", "po", "ti", shift=1), C("A", "B", "po", "mi")])
 S["two_events_same_step"] = dict(
     until=4, sims=[E("A", init_event=0, emit=[2, 1], next=[1]), T("B", 2),
                    E("Q", init_event=0, emit=[2]), H("Z", next_default=None)],
